@@ -246,7 +246,7 @@ def gen_edits(frame: bytes, thorough: bool):
         x = frame[i]
         reps = set(SUBST + [x ^ 1, x ^ 0x20, (x + 1) % 256])
         if thorough:
-            reps |= set(range(0, 256, 5)) | {9, 10, 13, 28, 31, 45, 57, 95, 133}
+            reps = set(range(256))
         for y in sorted(reps):
             if y != x:
                 yield ("sub", i, y), frame[:i] + bytes([y]) + frame[i + 1:]
